@@ -161,6 +161,8 @@ func (g *generator) text(n int) []byte {
 
 type generator struct {
 	e *common.Env
+	// numBase: layoutDoc numbers its objects numBase+1, numBase+2, ... (long object headers)
+	numBase int
 }
 
 // object makes a random value; strings may contain raw line breaks followed by harmless text
@@ -915,6 +917,21 @@ func main() {
 		d := g.windowDoc(m, 960)
 		t.allCutsSparse(d, []int{len(d.data), len(d.data) - 1, 1100, 1000, 990})
 	}
+
+	// long object headers (seven-digit object numbers: an EOL + header of 14..15 bytes) at
+	// every alignment to the scanner's buffer: the header text that straddles the end of a
+	// search window of scanner.Find must survive the refill (regexpOverlap)
+	{
+		step := e.Pick(2, 1)
+		for pad := 2; pad < 1030; pad += step {
+			g.numBase = 1000000
+			d := g.layoutDoc(kindItems(), pad, pad%7, 2100, 1, false)
+			g.numBase = 0
+			d.class = "long-headers"
+			t.allCutsSparse(d, []int{len(d.data)})
+		}
+	}
+	lap("long headers")
 
 	lap("window corpus")
 	// streams >= 1024 bytes written to a sink that cannot seek get an indirect /Length whose
